@@ -27,6 +27,15 @@ DECL = ("module default_db {\n let t <[{a = int, b = int, c = text}]>\n let u <[
 
 # hand-written corpus; `D:` prefix = with declared schemas for t, u, v
 CORPUS = [
+    # same-named declarations in different modules, referenced together (table identity must follow the full path)
+    "module staging {\n  let orders = (from raw_orders | filter status == 'new' | select {id, amount})\n}\nmodule archive {\n  let orders = (from old_orders | filter status == 'done' | select {id, amount})\n}\nfrom s = staging.orders\njoin a = archive.orders (==id)\nselect {s.id, new_amount = s.amount, old_amount = a.amount}",
+    "module m1 {\n  let x = (from t1 | select {a})\n}\nmodule m2 {\n  let x = (from t2 | select {a})\n  module m3 {\n    let x = (from t3 | select {a})\n  }\n}\nfrom m1.x | append m2.x | append m2.m3.x",
+    "module m1 {\n  let x = (from t1 | select {a, b})\n}\nlet x = (from t0 | select {a, b})\nfrom x | join side:left y = m1.x (==a) | select {x.b, yb = y.b}",
+    # append whose top has unnamed / computed columns over a named bottom (and the other way round)
+    "from invoices | select {customer_id, total + tax} | append (from orders | select {customer_id, amount = total}) | filter customer_id > 0",
+    "from invoices | select {customer_id, amount = total} | append (from orders | select {customer_id, total + tax})",
+    "from invoices | select {total + tax, customer_id + 1} | append (from orders | select {a = total, b = customer_id}) | sort a | take 3",
+    "D:from t | select {a, b + 1} | append (from u | select {a, d}) | group a (aggregate {n = count this})",
     # nested group / window pipelines
     "D:from t | group a (sort b | derive {r = row_number this} | take 2)",
     "D:from t | group {a, c} (aggregate {s = sum b, n = count this}) | sort s | take 1..3",
